@@ -4,6 +4,7 @@ import (
 	"errors"
 
 	lifecycle "github.com/boz/go-lifecycle"
+	"github.com/ovrclk/akash/util/verifhook"
 )
 
 // ErrNotRunning is the error with message "not running"
@@ -109,6 +110,7 @@ func (b *bus) run() {
 
 loop:
 	for {
+		verifhook.Emit("pubsub.bus.loop", b)
 
 		if b.eventch != nil && len(b.evbuf) > 0 {
 			// If we're emitting events (Subscriber mode) and there
